@@ -373,6 +373,8 @@ def shapes(tier):
         generators=gens3, meshmaker='xyz', print_block='block2', nincon_vars=3)   # block2 = 'AB1 7', held as 'AB107'
     add('aut-whole', autough2=True, sections=ALL_AUT, nrock=2, nad=[1, 2], nblocks=3, nincons=2, ntimes=8, generators=gens3, nincon_vars=4)
     add('t2-param-timesteps9', sections=['PARAM'], ntimesteps=9, nincons=4)
+    add('t2-diffu-3comp-2phase', sections=['PARAM', 'MULTI', 'DIFFU'], ncomp=3, nphase=2)
+    add('t2-diffu-2comp-3phase', sections=['PARAM', 'MULTI', 'DIFFU'], ncomp=2, nphase=3)
     add('t2-param-incons-with-gaps', sections=['PARAM'], nincons=6, incon_nones=[1, 3, 4])
     add('t2-meshfile', sections=['ROCKS', 'PARAM', 'ELEME', 'CONNE', 'GENER', 'INCON'], nblocks=3, meshfile=True, generators=[dict(ltab=4, enthalpy=False)])
     add('aut-xp-echo', autough2=True, xp=True, echo=True, sections=['SIMUL', 'ROCKS', 'PARAM', 'RPCAP', 'ELEME', 'CONNE', 'GENER'], nrock=1, nad=[2], nblocks=2,
